@@ -19,7 +19,6 @@ theorem Inv_rm {c : Conf} {s : State} {A B : List Lease} {l : Lease} (X : List L
   constructor
   · exact hip.1
   · exact hmac.1
-  · intro y hy; exact h.macLen y (hsub y hy)
   · intro y hy; exact h.dynPool y (hsub y hy)
   · -- bits
     intro o
@@ -120,9 +119,6 @@ theorem Inv_rename {c : Conf} {s : State} {A B : List Lease} {l : Lease} (h' : B
   constructor
   · have := h.ipNodup; simpa [List.map_append] using this
   · have := h.macNodup; simpa [List.map_append] using this
-  · intro y hy
-    obtain ⟨y0, hy0, _, hm, _⟩ := hmem y hy
-    rw [← hm]; exact h.macLen y0 hy0
   · intro y hy hs
     obtain ⟨y0, hy0, _, _, hi, hst, _⟩ := hmem y hy
     rw [← hi]; exact h.dynPool y0 hy0 (hst ▸ hs)
@@ -225,7 +221,6 @@ theorem Inv_clear {c : Conf} {s : State} {A B : List Lease} {l : Lease}
       constructor
       · exact hr.ipNodup
       · exact hr.macNodup
-      · exact hr.macLen
       · exact hr.dynPool
       · exact hr.bitsIff
       · exact hr.ipsIff
@@ -264,7 +259,7 @@ theorem addLease_ok {c : Conf} {s s' : State} {l : Lease} (hadd : addLease c l s
 theorem Inv_add {c : Conf} {s s' : State} {l : Lease} (h : Inv c s)
     (hadd : addLease c l s = .ok s')
     (hip : ∀ y ∈ s.leases, y.ip ≠ l.ip) (hmac : ∀ y ∈ s.leases, y.mac ≠ l.mac)
-    (hlen : l.mac.length = 6) (hidlt : l.id < s.nextId) (hidfresh : ∀ y ∈ s.leases, y.id ≠ l.id) :
+    (hidlt : l.id < s.nextId) (hidfresh : ∀ y ∈ s.leases, y.id ≠ l.id) :
     Inv c s' := by
   obtain ⟨hrange, hs'⟩ := addLease_ok hadd
   subst hs'
@@ -281,10 +276,6 @@ theorem Inv_add {c : Conf} {s s' : State} {l : Lease} (h : Inv c s)
   constructor
   · rw [hleases]; exact nodup_map_snoc h.ipNodup hip
   · rw [hleases]; exact nodup_map_snoc h.macNodup hmac
-  · intro y hy
-    rcases (hmemS y).1 hy with hy | rfl
-    · exact h.macLen y hy
-    · exact hlen
   · intro y hy hs
     rcases (hmemS y).1 hy with hy | rfl
     · exact h.dynPool y hy hs
